@@ -773,6 +773,111 @@ func runPlacement(proto string, path []uint16) (uint64, explore.Status) {
 	return explore.Hash(proto, fmt.Sprint(last), s.Vx.VerifState()), explore.StOK
 }
 
+// replaceSweep: an image is shown, destroyed and replaced by a new image object that is drawn in the next frame (at
+// the same place with the same cell size, or elsewhere; with or without an empty frame in between; by Render or by
+// Refresh): the new image is a placement that first appears - it must be placed, and (kitty) its data transmitted
+// after the old image was deleted, whatever ids the library hands out.
+func replaceSweep() {
+	for _, proto := range []string{"kitty", "sixel"} {
+		for v := 0; v < 8; v++ {
+			samePlace, gap, refresh := v&1 == 0, v&2 != 0, v&4 != 0
+			caps := refterm.CapInBandResize | refterm.CapRGB
+			if proto == "kitty" {
+				caps |= refterm.CapKittyGraphics
+			} else {
+				caps |= refterm.CapSixelDA1
+			}
+			s := openSession(caps, 2, 4, 8, 4)
+			mk := func(c color.NRGBA) vaxis.Image {
+				var im vaxis.Image
+				if proto == "kitty" {
+					im = s.Vx.NewKittyGraphic(solid(4, 8, c))
+				} else {
+					im = s.Vx.NewSixel(solid(4, 8, c))
+				}
+				im.Resize(2, 2)
+				waitRedraw(s)
+				return im
+			}
+			names := []string{"draw A at (0,0), Render", "A.Destroy(), new image A'"}
+			A := mk(color.NRGBA{255, 0, 0, 255})
+			win := s.Vx.Window()
+			w, h := A.CellSize()
+			A.Draw(win.New(0, 0, w, h))
+			s.Vx.Render()
+			var mark int
+			s.Con.With(func(t *refterm.Terminal) { mark = len(t.Graphics) })
+			A.Destroy()
+			A2 := mk(color.NRGBA{0, 0, 255, 255})
+			if gap {
+				names = append(names, "draw nothing, Render")
+				s.Vx.Window().Clear()
+				s.Vx.Render()
+			}
+			col, row := 0, 0
+			if !samePlace {
+				col, row = 3, 1
+			}
+			win = s.Vx.Window()
+			win.Clear()
+			w, h = A2.CellSize()
+			A2.Draw(win.New(col, row, w, h))
+			var before int
+			s.Con.With(func(t *refterm.Terminal) { before = len(t.Graphics) })
+			if refresh {
+				names = append(names, fmt.Sprintf("draw A' at (%d,%d), Refresh", col, row))
+				s.Vx.Refresh()
+			} else {
+				names = append(names, fmt.Sprintf("draw A' at (%d,%d), Render", col, row))
+				s.Vx.Render()
+			}
+			var since, frame []refterm.GraphicsOp
+			s.Con.With(func(t *refterm.Terminal) {
+				since = append(since, t.Graphics[mark:]...)
+				frame = append(frame, t.Graphics[before:]...)
+			})
+			r.Count("replace_cases", 1)
+			why := ""
+			if proto == "kitty" {
+				placedID := -1
+				for _, o := range frame {
+					if o.Action == "place" && o.Col == col && o.Row == row {
+						placedID = o.ID
+					}
+				}
+				sent := false
+				for _, o := range since {
+					if (o.Action == "transmit" || o.Action == "chunk") && o.ID == placedID {
+						sent = true
+					}
+				}
+				switch {
+				case placedID < 0:
+					why = fmt.Sprintf("the new image was not placed at (%d,%d) (graphics commands of the frame: %v)", col, row, opsStr(frame))
+				case !sent:
+					why = fmt.Sprintf("image %d was placed but its data were never transmitted after the old image was deleted (commands since: %v)", placedID, opsStr(since))
+				}
+			} else {
+				n := 0
+				for _, o := range frame {
+					if o.Action == "transmit+place" {
+						n++
+					}
+				}
+				if n != 1 {
+					why = fmt.Sprintf("%d sixel images written in the frame that first shows the new image, want 1", n)
+				}
+			}
+			if why != "" {
+				r.Violation("C20|placement|"+proto+"|replaced-image", v, detail{Part: "image destroyed and replaced (" + proto + ")", Case: strings.Join(names, " ; "), Why: why})
+			} else {
+				r.Distinct(explore.Hash("replace", proto, fmt.Sprint(v)))
+			}
+			s.Vx.Close()
+		}
+	}
+}
+
 func opsStr(ops []refterm.GraphicsOp) string {
 	var p []string
 	for _, o := range ops {
@@ -803,6 +908,7 @@ func main() {
 			blockHistorySweep(idx, n)
 		case arg == "contain":
 			containSweep()
+			replaceSweep()
 		case strings.HasPrefix(arg, "bfs:"):
 			name := strings.SplitN(arg, ":", 3)[1]
 			mkBFS(strings.TrimPrefix(name, "placements-")).WorkerMain(arg)
@@ -822,10 +928,10 @@ func main() {
 		states += b.States
 		trans += b.Transitions
 	}
-	n := r.Get("resize_cases") + r.Get("block_cases") + r.Get("contain_cases") + trans
+	n := r.Get("resize_cases") + r.Get("block_cases") + r.Get("contain_cases") + r.Get("replace_cases") + trans
 	r.Finish(explore.Coverage{
 		States: -1, Transitions: n, Traces: n, Evaluations: n,
-		Rule:        "Resize: every image size 1..12 x 1..12 px (scaled with the cell geometry) x every box 0..7 x 0..7 for half-block and full-block (cell 1x2) and for kitty and sixel under cell geometries 1x1, 2x2, 2x3 (images up to 24x24 px), 8x16, 10x20 (pixel sizes learnt through the in-band resize report): box, no-upscale and aspect-within-one-cell. Block rendering: every assignment of a 7-value pixel alphabet (opaque, alpha 0/49/50/128, premultiplied half alpha) to images of 1x1..2x3 pixels, drawn and rendered, cell colours read from the reference terminal. Containment: kitty, sixel and half-block images of 1..4 x 1..3 cells into 5 windows. Placement histories: BFS to depth n over 14 frames {A absent / at two positions} x {B} x {Render, Refresh} + resize A, for kitty and sixel; the graphics commands of the last frame are compared with what the placement diff requires. distinct = cases/states that passed; block resize history: every 4x4 px image of four quadrants over the pixel alphabet, resized to an earlier box (the full one, or a small one that forces a downscale) and then to each of six boxes, must draw exactly what a fresh image resized once draws; in every other resize case the image object has been resized to the largest box before; geometry change: the terminal's cell pixel size changes while the program runs (4 changes, kitty and sixel): images resized before the change and new ones fit 4 boxes under the new geometry",
+		Rule:        "Resize: every image size 1..12 x 1..12 px (scaled with the cell geometry) x every box 0..7 x 0..7 for half-block and full-block (cell 1x2) and for kitty and sixel under cell geometries 1x1, 2x2, 2x3 (images up to 24x24 px), 8x16, 10x20 (pixel sizes learnt through the in-band resize report): box, no-upscale and aspect-within-one-cell. Block rendering: every assignment of a 7-value pixel alphabet (opaque, alpha 0/49/50/128, premultiplied half alpha) to images of 1x1..2x3 pixels, drawn and rendered, cell colours read from the reference terminal. Containment: kitty, sixel and half-block images of 1..4 x 1..3 cells into 5 windows. Placement histories: BFS to depth n over 14 frames {A absent / at two positions} x {B} x {Render, Refresh} + resize A, for kitty and sixel; the graphics commands of the last frame are compared with what the placement diff requires. distinct = cases/states that passed; block resize history: every 4x4 px image of four quadrants over the pixel alphabet, resized to an earlier box (the full one, or a small one that forces a downscale) and then to each of six boxes, must draw exactly what a fresh image resized once draws; in every other resize case the image object has been resized to the largest box before; geometry change: the terminal's cell pixel size changes while the program runs (4 changes, kitty and sixel): images resized before the change and new ones fit 4 boxes under the new geometry; replaced image: an image is shown, destroyed and replaced by a new object drawn in the next frame (same place or elsewhere, with or without an empty frame between, Render or Refresh; kitty and sixel) - the new image is placed and its data are sent",
 		Exhaustive:  true,
 		Bounds:      map[string]any{"placement_depth": r.Pick(4, 6), "placement_states": states},
 		Assumptions: []string{"un-premultiplied colours are compared with a tolerance of 1 per channel (rounding)", "aspect within one cell: some scale in (0,1] puts both dimensions within one cell of the result"},
